@@ -280,8 +280,8 @@ func (s *Server) handleUpsertExportedServiceList(
 		snSidecarProxy := structs.ServiceNameFromString(service + syntheticProxyNameSuffix)
 		snSidecarProxy.OverridePartition(partition)
 
-		exportedServices[sn] = struct{}{}
-		exportedServices[snSidecarProxy] = struct{}{}
+		exportedServices[serviceNameKey(sn)] = struct{}{}
+		exportedServices[serviceNameKey(snSidecarProxy)] = struct{}{}
 		serviceNames = append(serviceNames, sn)
 	}
 
@@ -293,7 +293,7 @@ func (s *Server) handleUpsertExportedServiceList(
 		return err
 	}
 	for _, sn := range serviceList {
-		if _, ok := exportedServices[sn]; !ok {
+		if _, ok := exportedServices[serviceNameKey(sn)]; !ok {
 			err := s.handleUpdateService(peerName, partition, sn, nil)
 
 			if err != nil {
@@ -343,7 +343,7 @@ func (s *Server) handleUpdateService(
 	for _, nodeSnap := range snap.Nodes {
 		// First register the node - skip the unchanged ones
 		changed := true
-		if storedNode, ok := storedNodesMap[nodeSnap.Node.Node]; ok {
+		if storedNode, ok := storedNodesMap[nodeKey(nodeSnap.Node.Node)]; ok {
 			if storedNode.IsSame(nodeSnap.Node) {
 				changed = false
 			}
@@ -424,7 +424,7 @@ func (s *Server) handleUpdateService(
 		deletedNodeChecks = make(map[nodeCheckTuple]struct{})
 	)
 	for _, csn := range storedInstances {
-		if _, ok := snap.Nodes[csn.Node.Node]; !ok {
+		if _, ok := snap.Nodes[nodeKey(csn.Node.Node)]; !ok {
 			unusedNodes[csn.Node.Node] = struct{}{}
 
 			// Since the node is not in the snapshot we can know the associated service
@@ -449,8 +449,8 @@ func (s *Server) handleUpdateService(
 		}
 
 		// Delete the service instance if not in the snapshot.
-		sid := csn.Service.CompoundServiceID()
-		if _, ok := snap.Nodes[csn.Node.Node].Services[sid]; !ok {
+		sid := serviceKey(csn.Service.CompoundServiceID())
+		if _, ok := snap.Nodes[nodeKey(csn.Node.Node)].Services[sid]; !ok {
 			err := s.Backend.CatalogDeregister(&structs.DeregisterRequest{
 				Node:           csn.Node.Node,
 				ServiceID:      csn.Service.ID,
@@ -469,7 +469,7 @@ func (s *Server) handleUpdateService(
 
 		// Reconcile checks.
 		for _, chk := range csn.Checks {
-			if _, ok := snap.Nodes[csn.Node.Node].Services[sid].Checks[chk.CheckID]; !ok {
+			if _, ok := snap.Nodes[nodeKey(csn.Node.Node)].Services[sid].Checks[checkKey(chk.CheckID)]; !ok {
 				// Checks without a ServiceID are node checks.
 				// If the node exists but the check does not then the check was deleted.
 				if chk.ServiceID == "" {
@@ -641,16 +641,16 @@ type nodeCheckIdentity struct {
 
 func makeNodeSvcInstID(node string, serviceID string) nodeSvcInstIdentity {
 	return nodeSvcInstIdentity{
-		nodeID:    node,
-		serviceID: serviceID,
+		nodeID:    nodeKey(node),
+		serviceID: strings.ToLower(serviceID),
 	}
 }
 
 func makeNodeCheckID(node string, serviceID string, checkID types.CheckID) nodeCheckIdentity {
 	return nodeCheckIdentity{
-		serviceID: serviceID,
-		checkID:   string(checkID),
-		nodeID:    node,
+		serviceID: strings.ToLower(serviceID),
+		checkID:   string(checkKey(checkID)),
+		nodeID:    nodeKey(node),
 	}
 }
 
@@ -664,7 +664,7 @@ func buildStoredMap(storedInstances structs.CheckServiceNodes) (
 	checksMap := map[nodeCheckIdentity]*structs.HealthCheck{}
 
 	for _, csn := range storedInstances {
-		nodesMap[csn.Node.Node] = csn.Node
+		nodesMap[nodeKey(csn.Node.Node)] = csn.Node
 		svcInstMap[makeNodeSvcInstID(csn.Node.Node, csn.Service.ID)] = csn.Service
 		for _, chk := range csn.Checks {
 			checksMap[makeNodeCheckID(csn.Node.Node, csn.Service.ID, chk.CheckID)] = chk
